@@ -111,7 +111,7 @@ EV_QUICK = (
     "tick_ok", "tick_fail",
 )
 # C24, second exploration: single-register writes (the other registers are not re-commanded) next to the batch cycle
-EV_SINGLE = ("wb_new_ok", "wb_new_fail", "wb_same_ok", "w_new_ok", "w_new_ok_pf", "w_same_ok", "w_new_fail", "rb_fail", "tick_ok", "el_rec")
+EV_SINGLE = ("wb_new_ok", "wb_new_fail", "wb_same_ok", "wb_new_one_ok", "w_new_ok", "w_new_ok_pf", "w_same_ok", "w_new_fail", "rb_fail", "tick_ok", "el_rec")
 # C23, second exploration: a register that is read on its own next to the batch of the other registers
 EV_READS = ("rb_ok", "rb_fail", "r3_ok", "r3_fail", "r_ok", "el_rec", "tick_ok")
 EV_THOROUGH = EV_QUICK + ("r_ok", "r_fail", "w_new_ok", "w_new_fail", "w_same_ok", "el_small", "wb_half_ok", "w_new_partial_fail")
@@ -172,7 +172,7 @@ class Sys:
                         self.last_read_ok[r.name] = f.inp[r.name]
             elif ev.startswith("wb_") or ev.startswith("w_"):
                 batch = ev.startswith("wb_")
-                regs = WRITE_REGS if batch else [W2]
+                regs = ([RW1] if "_one_" in ev else WRITE_REGS) if batch else [W2]       # wb_new_one_ok: a batch that commands RW1 only
                 if "_prev_" in ev:
                     prev = getattr(self, "prev_commanded", None) or {}
                     for r in regs:
